@@ -295,7 +295,15 @@ def gen_C12(ctx):
 
 
 def gen_C14(ctx):
-    return st_shape(ctx, ctx.n(12000, 500000), "c14-shape") + st_cksum_texts(ctx, ("shape",))
+    out = st_shape(ctx, ctx.n(12000, 500000), "c14-shape") + st_cksum_texts(ctx, ("shape",))
+    # every ASCII character (and a few others) at the start, in the middle and at the end of the type, for a conversion
+    # that succeeds and one that fails: the conversion is reached exactly for the syntactically valid types
+    for cp in list(range(128)) + [0xE9, 0x130, 0x212A, 0xFF0B]:
+        for pat in ("de%sb", "%sdeb", "deb%s"):
+            for bits in (0, 1, 256):
+                s_ = "pkg:%s/name@1.0" % (pat % chr(cp))
+                out.append(case("shape %d parse %s" % (bits, hx(s_)), "shape-parse", bits=bits, s=s_))
+    return out
 
 
 def gen_C15(ctx):
